@@ -536,7 +536,8 @@ pub fn eval_external(mem: &mut Memory, tree: GcRef) -> Result<GcRef, String> {
                 Err(format!("Evaluation aborted."))
             }
             else {
-                Err(list_to_string(crate::native::print::print(mem, &[signal], empty_env, recursion_depth).ok().unwrap()).unwrap())
+                // a signal nested deeper than the recursion limit cannot be printed
+                Err(crate::native::print::print(mem, &[signal], empty_env, recursion_depth).ok().and_then(|x| list_to_string(x)).unwrap_or("#<ERROR: CANNOT CONVERT TO STRING>".to_string()))
             }
         },
     };
